@@ -118,6 +118,7 @@ def cases():
                 # depend on bookkeeping)
                 "stale_keys": st.lists(gen.key_strategy(labels, 2, False, min_deg=1), min_size=0, max_size=2),
                 "zero_offset": gen.pick((False, 3), (True, 1)),
+                "ctype": gen.CTYPE,
             }))
     return st.sampled_from(_choices()).flatmap(for_choice)
 
@@ -161,13 +162,16 @@ def _run(spec, rec, qv):
     classes = {kind, "solver=" + solver, "all=%s" % want_all}
 
     # ---- build ---------------------------------------------------------
+    ctype = spec.get("ctype") or "plain"
+    if ctype != "plain":
+        classes.add("ctype=" + ctype)
     if is_dict:
-        M = {k: v for k, v in gen.terms_dict(spec["terms"]).items() if v != 0}
+        M = {k: gen.wrap_number(v, ctype) for k, v in gen.terms_dict(spec["terms"]).items() if v != 0}
         if spec.get("zero_offset") and () not in M:
             M[()] = 0          # an explicit zero constant is part of the caller's dict and must survive the call
             classes.add("dict_with_explicit_zero_offset")
     else:
-        M = lib(gen.build, qv, kind, spec["terms"], what="build")
+        M = lib(gen.build, qv, kind, gen.wrap_terms(spec["terms"], ctype), what="build")
         for rel, cterms, lam, log_trick in cons:
             kw = {"lam": lam}
             if rel != "eq":
